@@ -235,14 +235,76 @@ def shard(shard_i, nshards, payload):
     return res.to_dict()
 
 
+def project_shard(shard_i, nshards, payload):
+    """The same history-independence oracle at the Project trait, in process and at scale: after a random sequence
+    of change_text_document / semantic / tokenize calls on one FileBackedProject, semantic() must say what a fresh
+    project holding the current contents says (verdict and, when the state has at most one faulty file, codes)."""
+    res = core.Result()
+    probe = core.Probe()
+    try:
+        for i in range(shard_i, payload["n_project"], nshards):
+            rng = core.rng_for(payload["seed"], "c11proj", i)
+            names = ["a.st", "b.st", "c.st"]
+            docs = {}
+            for k, n in enumerate(names):
+                g = vgen.VGen(core.rng_for(payload["seed"], "c11pd", i, k), prefix="P%d" % k, avoid=payload["avoid"])
+                decls = g.unit(n_types=1, n_fbs=1, n_programs=1, with_config=False, n_functions=0)
+                good = vgen.render_unit(decls)
+                faults = [f for f in vgen.plant_all(decls) if not f[1].endswith("rhs-enum-target")]
+                bad = vgen.render_unit(rng.choice(faults)[2]) if faults else good
+                docs[n] = [good, good + "\n\n", bad, "PROGRAM broken%d VAR x : INT END_VAR END_PROGRAM\n" % k,
+                           "PROGRAM lex%d VAR x : INT; END_VAR x := ?; END_PROGRAM\n" % k, "", good.replace("\n", "\n\n", 3)]
+            state = {}
+            ops = []
+            for _ in range(rng.randint(3, 25)):
+                k = rng.randrange(10)
+                n = rng.choice(names)
+                if k < 5:
+                    t = rng.choice(docs[n])
+                    ops.append({"op": "change", "file": n, "text": t})
+                    state[n] = t
+                elif k < 8:
+                    ops.append({"op": "semantic"})
+                else:
+                    ops.append({"op": "tokenize", "file": n})
+            if not state:
+                continue
+            ops.append({"op": "semantic"})
+            obs = probe.run({"op": "project", "ops": ops})
+            fresh = probe.run({"op": "project", "ops": [{"op": "change", "file": n, "text": t}
+                                                          for n, t in sorted(state.items())] + [{"op": "semantic"}]})
+            res.evaluations += 1
+            res.count("project-history")
+            case = {"ops": ops, "state": state}
+            if any(x.get("watchdog") or "died" in x or "panic" in x for x in (obs, fresh)):
+                res.violation("crash", "project:crash", (obs.get("panic") or fresh.get("panic")), case)
+                continue
+            a, b = obs["results"][-1], fresh["results"][-1]
+            n_faulty = sum(1 for n, t in state.items() if t not in (docs[n][0], docs[n][1], docs[n][6], ""))
+            ca = sorted(d["code"] for d in a.get("diags", []))
+            cb = sorted(d["code"] for d in b.get("diags", []))
+            if bool(a.get("ok")) != bool(b.get("ok")):
+                res.violation("history-dependent", "project:verdict", {"after_history": ca, "fresh": cb}, case)
+            elif n_faulty <= 1 and set(ca) != set(cb):
+                res.violation("history-dependent", "project:codes", {"after_history": ca, "fresh": cb}, case)
+            else:
+                res.distinct.add(core.key_of("proj", i))
+    finally:
+        probe.close()
+    return res.to_dict()
+
+
 def run(tier, seed):
     core.build_plc()
+    core.build_probe()
     avoid = sorted({a for f in core.load_findings("C02") if f.get("status") == "open" for a in f.get("atoms", [])})
     if tier == "quick":
         payload = {"seed": seed, "avoid": avoid, "max_len": 3, "sample": 1600, "n_random": 32, "random_len": 12}
     else:
         payload = {"seed": seed, "avoid": avoid, "max_len": 4, "sample": 0, "n_random": 600, "random_len": 40}
     parts = core.run_sharded(shard, payload)
+    payload["n_project"] = 1500 if tier == "quick" else 60000
+    parts += core.run_sharded(project_shard, payload)
     parts.append(witnesses().to_dict())
     res = core.Result.merge(parts)
     total = 20 ** payload["max_len"]
